@@ -846,6 +846,8 @@ def _real_cookie(args: dict, max_age: int):
         accepted = True
     except ValueError:
         got, accepted = None, False
+    except Exception as e:  # noqa: BLE001 - the callback only expects ValueError
+        got, accepted = f"raises {type(e).__name__}: {e}", True
     fresh = max_age <= 0 or 0 <= age <= max_age
     return accepted, got, raw == honest, fresh, base64.urlsafe_b64encode(raw).decode("ascii")
 
@@ -884,14 +886,7 @@ def _replay_callback(args: dict) -> str | None:
     return None
 
 
-@cond(q=60, t=240, stubs=_COOKIE_STUBS, encoded=[pk._pack_oauth_cookie, pk._unpack_oauth_cookie], bound=_COOKIE_BOUND,
-      replay=_replay_cookie, signature=lambda a, c: "C37:cookie:accept-decision")
-def cookie_accepted_iff_untampered_and_fresh(forged: bytes, mode: int, n: int, now: int, max_age: int) -> bool:
-    """
-    pre: len(forged) == _HONEST_LEN and 0 <= mode <= 3 and 0 <= n <= _HONEST_LEN
-    pre: 990 <= now <= 1710 and -1 <= max_age <= 700
-    post: _
-    """
+def _cookie_decision(forged: bytes, mode: int, n: int, now: int, max_age: int) -> bool:
     honest = _honest_raw()
     raw = _attacker_raw(honest, mode, forged, n)
     _CK["now"] = now
@@ -910,6 +905,28 @@ def cookie_accepted_iff_untampered_and_fresh(forged: bytes, mode: int, n: int, n
     if accepted and got != _FIELDS:
         return False
     return True
+
+
+@cond(q=60, t=240, stubs=_COOKIE_STUBS, encoded=[pk._pack_oauth_cookie, pk._unpack_oauth_cookie], bound=_COOKIE_BOUND + " [honest, same-length forgery, extension]",
+      replay=_replay_cookie, signature=lambda a, c: "C37:cookie:accept-decision")
+def cookie_accepted_iff_untampered_and_fresh(forged: bytes, mode: int, n: int, now: int, max_age: int) -> bool:
+    """
+    pre: len(forged) == _HONEST_LEN and (mode == 0 or mode == 1 or mode == 3) and n == 0
+    pre: 990 <= now <= 1710 and -1 <= max_age <= 700
+    post: _
+    """
+    return _cookie_decision(forged, mode, n, now, max_age)
+
+
+@cond(q=60, t=240, stubs=_COOKIE_STUBS, encoded=[pk._pack_oauth_cookie, pk._unpack_oauth_cookie], bound=_COOKIE_BOUND + " [truncation to any length]",
+      replay=_replay_cookie, signature=lambda a, c: "C37:cookie:accept-decision")
+def truncated_cookie_rejected(forged: bytes, mode: int, n: int, now: int, max_age: int) -> bool:
+    """
+    pre: len(forged) == 0 and mode == 2 and 0 <= n <= _HONEST_LEN
+    pre: 990 <= now <= 1710 and -1 <= max_age <= 700
+    post: _
+    """
+    return _cookie_decision(forged, mode, n, now, max_age)
 
 
 class _FakeResp:
